@@ -409,6 +409,15 @@ def _real_module_impl(module_path: str) -> dict:
 		module = env.load(module_path)
 		lines = SAMPLE_PROGRAM.split('\n')
 		failures = _tree_laws(module.entrypoint, lines, module_path)
+		# ... and the same program from a tree that went through the cache encoding: every node keeps its span (the sample
+		# has the trees without children - pass, break, None, True, [], `-> None` - that expressions alone do not)
+		span_table = lambda entry: {n.full_path: (tuple(n.source_map['begin']), tuple(n.source_map['end'])) for n in [entry, *entry.procedural()]}
+		fresh_table = span_table(module.entrypoint)
+		restored = _roundtrip_env(SAMPLE_PROGRAM, os.getcwd(), 'verif_sample2').load('verif_sample2').entrypoint
+		table = span_table(restored)
+		if table != fresh_table:
+			keys = [k for k in fresh_table if table.get(k) != fresh_table[k]]
+			failures.append({'clause': 'RestoredSpanEqualsFresh', 'detail': f'{len(keys)} nodes of the sample program change their span when the tree goes through the cache encoding, e.g. {keys[0]}: fresh {fresh_table[keys[0]]} vs restored {table.get(keys[0])}', 'text': module_path, 'kind': keys[0].split('.')[-1].split('[')[0]})
 		return {'failures': failures, 'nodes': len(module.entrypoint.procedural()) + 1}
 	env = Env()
 	module = env.load(module_path)
